@@ -12,6 +12,7 @@ N7  `x = self.a.b` / `push = stack.append` bound once at function top level, att
                                                     ->  the attribute expression is substituted for x
 N11 `for x in chain((a,), it): body` -> body[x:=a]; for x in it: body
 N16 `x = x + e` -> `x += e`
+N18 `x = <expr>; return x` (x read nowhere else) -> `return <expr>`
 N15 a local only bound to k-tuple displays and only read as `*x` / `x[const]` -> k locals
 N14 `for x in iter(f, sentinel): body` -> `while True: x = f(); if x is sentinel: break; body`
 N13 `Class.method(obj, args)` of a package class -> `obj.method(args)`
@@ -329,7 +330,7 @@ class Normalizer:
             loads = [n for n in own if isinstance(n, ast.Name) and n.id == name and isinstance(n.ctx, ast.Load)]
             txt = ast.unparse(st.value)
             # the aliased attribute (or a prefix of it) must not be re-bound in this function
-            rebound = any(isinstance(n, ast.Attribute) and isinstance(n.ctx, (ast.Store, ast.Del)) and txt.startswith(ast.unparse(n)) for n in own)
+            rebound = any(isinstance(n, ast.Attribute) and isinstance(n.ctx, (ast.Store, ast.Del)) and (txt == ast.unparse(n) or txt.startswith(ast.unparse(n) + '.')) for n in own)
             if rebound:
                 continue
             # node / header objects are tracked by variable in the freshness and dirty-written dataflows: keep their aliases
@@ -376,6 +377,27 @@ class Normalizer:
 
     # ------------------------------------------------------------------ N1, N2, N4, N5 on statement lists
     def rewrite_blocks(self, tree):
+        # N18: `x = <expr>` immediately followed by `return x`, x read nowhere else -> `return <expr>`
+        for fn in [f for f in ast.walk(tree) if isinstance(f, (ast.FunctionDef, ast.AsyncFunctionDef))]:
+            names = {}
+            for x in ast.walk(fn):
+                if isinstance(x, ast.Name):
+                    names.setdefault(x.id, []).append(x)
+            for n in ast.walk(fn):
+                for field in ('body', 'orelse', 'finalbody'):
+                    seq = getattr(n, field, None)
+                    if not (isinstance(seq, list) and len(seq) >= 2 and isinstance(seq[0], ast.stmt)):
+                        continue
+                    i = 0
+                    while i < len(seq) - 1:
+                        a, r = seq[i], seq[i + 1]
+                        if isinstance(a, ast.Assign) and len(a.targets) == 1 and isinstance(a.targets[0], ast.Name) and isinstance(r, ast.Return) \
+                                and isinstance(r.value, ast.Name) and r.value.id == a.targets[0].id and len(names.get(r.value.id, [])) == 2 \
+                                and not isinstance(a.value, (ast.Yield, ast.YieldFrom)):
+                            seq[i:i + 2] = [_loc(ast.Return(value=a.value), r)]
+                            self.changes += 1
+                            continue
+                        i += 1
         for n in ast.walk(tree):
             for field in ('body', 'orelse', 'finalbody'):
                 seq = getattr(n, field, None)
